@@ -13,7 +13,7 @@ PARAMS = [(proto, tr) for proto in ('json', 'xml', 'soap11', 'http-json')
                     'spyne.server._base.ServerBase.finalize_context', 'spyne.server.wsgi.WsgiApplication.handle_rpc',
                     'spyne.server.wsgi.WsgiApplication.handle_error', 'spyne.evmgr.EventManager.fire_event',
                     'spyne.context.MethodContext.fire_event', 'spyne.service.ServiceBaseMeta'],
-         bounds={'schedule': '8 request kinds x 9 failing stages x {Fault, non-Fault} x 3 listener levels, one failure '
+         bounds={'schedule': '15 request kinds (9 generic + 6 JSON documents that are no envelope) x 9 failing stages x {Fault, non-Fault} x 3 listener levels, one failure '
                              'per call; listeners at application (two, one registered twice), inherited service, '
                              'method, protocol and transport level'})
 def event_order(sx, p):
@@ -39,3 +39,52 @@ def unserialisable_return_events(sx, p):
     problems = [x for x in O.check_events(sched, rec) if 'method_exception_object' in x or 'escaped' in x]
     sx.observe('problems', problems)
     return not problems
+
+
+# ---------------------------------------------------------------- the listener registry itself (bounded histories)
+from spyne.evmgr import EventManager
+from spyne.util.oset import oset
+
+FIRED = []
+HANDLERS = []
+for _i in range(3):
+    def _mk(i):
+        def h(ctx):
+            FIRED.append(i)
+        h.__name__ = 'h%d' % i
+        return h
+    HANDLERS.append(_mk(_i))
+OPS = [('add', 0), ('add', 1), ('add', 2), ('del', 0), ('del', 1), ('del', 2)]
+
+
+@harness('C14', tier_params={'quick': [1, 2, 3, 4], 'thorough': [1, 2, 3, 4, 5, 6]}, label=lambda n: 'history=%d' % n,
+         functions=['spyne.evmgr.EventManager.add_listener', 'spyne.evmgr.EventManager.del_listener',
+                    'spyne.evmgr.EventManager.fire_event', 'spyne.util.oset.oset.add', 'spyne.util.oset.oset.discard',
+                    'spyne.util.oset.oset.__iter__'],
+         bounds={'history': 'every sequence of n <= 4 (quick) / 6 (thorough) add_listener / del_listener operations over three '
+                            'handlers (removals only of registered handlers), the event fired after every step; also the '
+                            'ordered set on its own: len, membership, iteration in both directions after every step'})
+def listener_registry_history(sx, n):
+    """after any history of registrations and removals an event runs exactly the currently registered handlers, once
+    each, in registration order"""
+    mgr = EventManager(None)
+    model = []
+    ok = []
+    for step in range(n):
+        avail = [op for op in OPS if op[0] == 'add' or op[1] in model]
+        kind, i = sx.choose('op%d' % step, avail)
+        if kind == 'add':
+            mgr.add_listener('ev', HANDLERS[i])
+            if i not in model:
+                model.append(i)
+        else:
+            mgr.del_listener('ev', HANDLERS[i])
+            model.remove(i)
+        del FIRED[:]
+        mgr.fire_event('ev', None)
+        ok.append(list(FIRED) == model)
+        hs = mgr.handlers.get('ev', oset())
+        ok.append(len(hs) == len(model) and [HANDLERS.index(h) for h in hs] == model and
+                  [HANDLERS.index(h) for h in reversed(hs)] == model[::-1] and
+                  all((HANDLERS[j] in hs) == (j in model) for j in range(3)))
+    return all(ok)
